@@ -112,6 +112,7 @@ fn extreme_word(rng: &mut Rng) -> u64 {
         3 => 1u64 << rng.below(64),
         4 => (1u64 << rng.below(64)).wrapping_sub(1),
         5 => rng.below(8),
+        6 if rng.chance(1, 2) => rng.next_u64() | ((1u64 << 26) - 1),
         6 => u64::MAX << rng.below(64),
         _ => rng.next_u64(),
     }
@@ -219,7 +220,8 @@ impl Scenario for C16 {
                     let seed = seeds(rng);
                     let d = gen_item_bytes(rng, seed, 80);
                     let cuts = gen_cuts(rng, d.len(), None);
-                    Act::Cpc { seed, lg_k: rng.range(4, 12) as u8, data: hex(&d), cuts }
+                    // the largest lg_k now and then: its last row and column 63 meet the pair table's empty marker
+                    Act::Cpc { seed, lg_k: if rng.chance(1, 6) { 26 } else { rng.range(4, 12) as u8 }, data: hex(&d), cuts }
                 }
                 15 => {
                     let seed = seeds(rng);
@@ -355,6 +357,21 @@ impl Scenario for C16 {
                     let col = h2.leading_zeros().min(63);
                     let mut sk = CpcSketch::with_seed(*lg_k, *seed);
                     lib_call("cpc.update", || sk.update(Chunks { data: &d, cuts }))?;
+                    if *lg_k > 16 {
+                        // no 2^lg_k-row matrix for the large configuration: the single coupon is read
+                        // back through a round trip into a union of the same size reduced by nothing
+                        check!(sk.num_coupons() == 1 && !sk.is_empty(), "C16.cpc_row_col", "seed {seed} lg_k {lg_k} data {data}: one item offered, num_coupons {}", sk.num_coupons());
+                        let mut twin = CpcSketch::with_seed(*lg_k, *seed);
+                        // the documented derivation, including the remap of the pair that would collide with the table's empty marker
+                        let mut rc = ((row as u32) << 6) | col;
+                        if rc == u32::MAX {
+                            rc ^= 1 << 6;
+                        }
+                        twin.verif_row_col_update(rc);
+                        check!(sk.serialize() == twin.serialize(), "C16.cpc_row_col", "seed {seed} lg_k {lg_k} data {data}: the sketch of the item differs from the sketch of its reference pair (row {row}, col {col})");
+                        st.lib_calls += 1;
+                        continue;
+                    }
                     let m = sk.verif_bit_matrix();
                     let mut want = vec![0u64; k as usize];
                     want[row] = 1u64 << col;
